@@ -15,6 +15,7 @@ A program is a block: a list of statements. Statements / expressions (tuples):
   ("apply", arr, B, v)                arr apply {B; v}        v: ("xplus", n) -> _x + n | ("lit", v)
   ("findif", arr, B, p)               arr findIf {B; p}
   ("switch", v, cases, default)       cases: [(val, B|None)], default: (position, B) | None
+  ("switchb", v, B)                   switch (v) do {B}; B may contain, at any nesting depth, ("case", val, B|None) and ("default", B)
   ("call", arg|None, B)               [arg] call {B}
   ("try", B1, B2)                     try {B1} catch {B2}
   ("throw", v)                        throw v
@@ -39,6 +40,10 @@ class BreakOut(Exception):
     def __init__(self, name, value):
         self.name = name
         self.value = value
+
+
+class EndBlock(Exception):
+    """A matching `case x: {..}` ends the block it stands in (the rest of that block is skipped, nothing else)."""
 
 
 class Throw(Exception):
@@ -175,6 +180,12 @@ def render_stmt(s):
                 val, b = cases[i]
                 parts.append("case %s%s" % (lit(val), ": " + blk(b) if b is not None else ""))
         return "switch (%s) do {%s}" % (rexpr(s[1]), "; ".join(parts))
+    if k == "switchb":
+        return "switch (%s) do %s" % (rexpr(s[1]), blk(s[2]))
+    if k == "case":
+        return "case %s%s" % (lit(s[1]), ": " + blk(s[2]) if s[2] is not None else "")
+    if k == "default":
+        return "default %s" % blk(s[1])
     if k == "call":
         return ("%s call %s" % (rexpr(s[1]), blk(s[2]))) if s[1] is not None else "call " + blk(s[2])
     if k == "try":
@@ -248,6 +259,8 @@ class Interp:
             return val, False
         except ExitScope as x:
             return x.value, True
+        except EndBlock:
+            return None, False
         except BreakOut as x:
             if e.scope_name is not None and e.scope_name == x.name:
                 return x.value, True
@@ -390,6 +403,28 @@ class Interp:
             if matched is None:
                 return None
             return self.run_block(matched, env)[0]
+        if k == "switchb":
+            st = {"val": self.expr(s[1], env), "now": False, "has": False, "target": None}
+            e = Env(env)
+            e.vars["___switch"] = st
+            self.run_block(s[2], e, new_scope=False)
+            if st["target"] is None:
+                return None
+            return self.run_block(st["target"], e, new_scope=False)[0]
+        if k in ("case", "default"):
+            st = env.get("___switch")
+            if st is None:
+                raise ScriptError("case outside switch")
+            if k == "default":
+                if not st["has"]:
+                    st["target"] = s[1]
+                return None
+            if self.sqf_eq(s[1], st["val"]):
+                st["now"] = True
+            if s[2] is not None and not st["has"] and st["now"]:
+                st["target"], st["now"], st["has"] = s[2], False, True
+                raise EndBlock()
+            return None
         if k == "call":
             bind = {}
             if s[1] is not None:
